@@ -869,10 +869,10 @@ class ConstructedPayloadDecoderBase(AbstractConstructedPayloadDecoder):
 
                                 asn1Object.setComponentByPosition(idx, component)
 
-            else:
-                inconsistency = asn1Object.isInconsistent
-                if inconsistency:
-                    raise inconsistency
+            # e.g. WITH COMPONENTS constraints of SEQUENCE/SET
+            inconsistency = asn1Object.isInconsistent
+            if inconsistency:
+                raise inconsistency
 
         else:
             componentType = asn1Spec.componentType
@@ -1110,10 +1110,10 @@ class ConstructedPayloadDecoderBase(AbstractConstructedPayloadDecoder):
 
                                     asn1Object.setComponentByPosition(idx, component)
 
-                else:
-                    inconsistency = asn1Object.isInconsistent
-                    if inconsistency:
-                        raise inconsistency
+            # e.g. WITH COMPONENTS constraints of SEQUENCE/SET
+            inconsistency = asn1Object.isInconsistent
+            if inconsistency:
+                raise inconsistency
 
         else:
             componentType = asn1Spec.componentType
